@@ -170,6 +170,13 @@ def run(ctx):
                         for s in srcs:
                             s.rows.append([1, 99])
                             s.rows.append(['zz', 98])
+                        if not cache and name in ('mergesort', 'mergesort(reverse)', 'sort(reverse)', 'join', 'leftjoin', 'outerjoin', 'complement', 'intersection',
+                                                  'duplicates', 'unique', 'distinct', 'conflicts'):
+                            # ... and rename the field that is not the key, in every source (mergesort: in the first only)
+                            for si, s in enumerate(srcs):
+                                if name.startswith('mergesort') and si > 0:
+                                    continue
+                                s.rows[0] = [s.rows[0][0], str(s.rows[0][1]) + '_renamed'] + list(s.rows[0][2:])
                         before = [s.pulls for s in srcs]
                         second = util.show_out(*util.collect(iter(view)))
                         pulled = sum(s.pulls for s in srcs) - sum(before)
